@@ -70,6 +70,24 @@ def kahn_order(stmts):
     return out if len(out) == len(stmts) else list(stmts)
 
 
+def topo_shuffle(rng, stmts):
+    """a random statement order that respects port availability (any linear extension)"""
+    by = {str(s.lbl): s for s in stmts}
+    deps = {str(s.lbl): {strip(a) for a in s.port_args() if strip(a) in by} for s in stmts}
+    # fbbind must follow its fbsrc statement as well
+    fsrc = {str(s.args[0]): str(s.lbl) for s in stmts if s.kind == "fbsrc"}
+    for s in stmts:
+        if s.kind == "fbbind":
+            deps[str(s.lbl)].add(fsrc[str(s.args[0])])
+    out, done = [], set()
+    left = [str(s.lbl) for s in stmts]
+    while left:
+        ready = [x for x in left if deps[x] <= done]
+        x = rng.choice(ready)
+        left.remove(x); done.add(x); out.append(by[x])
+    return out
+
+
 class Prog:
     def __init__(self):
         self.start, self.end, self.cleanup = 1, 40, True
